@@ -1,11 +1,11 @@
 SPECIFICATION ISpec
-CONSTANTS Kind = "hashset"
+CONSTANTS Kind = "poolmap"
  Keys = {1, 2}
- Vals = {0}
+ Vals = {1}
  CapArgs = {1, 2}
  MaxBlocks = 1
  UVars = {1, 2}
  BVars = {1, 2}
- OpSet <- AllOps
+ OpSet <- TwoOps
 INVARIANTS RefinementOK ChainsOK OrderOK FreeOK StoresOK TypeOK
 VIEW IView
